@@ -224,6 +224,16 @@ def multiTrace : Multi → List MOp → List Json
           | .ok ms1 => (ms1, Json.str "ok")
     out :: multiTrace ms' ops
 
+def widthOf (a : Json) : Except String Width :=
+  match optField a "width" with
+  | none => .ok none
+  | some j => do .ok (some (← asNat j))
+
+def step0Of (a : Json) : Except String (Option Nat) :=
+  match optField a "step0" with
+  | none => .ok none
+  | some j => do .ok (some (← asNat j))
+
 /-! ### handler -/
 
 def handle : Handler := fun fn args =>
@@ -245,6 +255,8 @@ def handle : Handler := fun fn args =>
   | "trainstate_run" => do
       let a ← argAt args 0
       let owg ← asStr (← field a "owg")
+      let w ← widthOf a
+      let st0 ← step0Of a
       let params ← ptOfJson (← field a "params")
       let fields ← fieldsOfJson (← field a "fields")
       let initTbl ← initTableOfJson ptOfJson leavesOfJson (← field a "init_table")
@@ -253,12 +265,13 @@ def handle : Handler := fun fn args =>
       let steps ← asList (fun e => do .ok (← ptOfJson (← field e "grads"), ← fieldsOfJson (← field e "kwargs"))) (← field a "steps")
       match TrainState.create owg tx params fields with
       | .error e => .ok (Json.mkObj [("raise", .str (errName e)), ("at", .str "create")])
-      | .ok s0 =>
+      | .ok s00 =>
+        let s0 := match st0 with | some n => { s00 with step := n } | none => s00  -- `.replace(step=…)` by the caller
         let rec go (s : TrainState Arr (List Arr) Int) (i : Nat) : List (PT Arr × List (String × Int)) → Json
           | [] => Json.mkObj [("step", Json.num (JsonNumber.fromNat s.step)), ("params", ptToJson s.params),
                               ("opt_state", leavesToJson s.optState), ("fields", fieldsToJson s.fields)]
           | (g, kw) :: rest =>
-            match s.applyGradients owg tx g kw with
+            match s.applyGradients w owg tx g kw with
             | .error e => Json.mkObj [("raise", .str (errName e)), ("at", Json.num (JsonNumber.fromNat i)),
                                       ("step", Json.num (JsonNumber.fromNat s.step)), ("params", ptToJson s.params),
                                       ("opt_state", leavesToJson s.optState), ("fields", fieldsToJson s.fields)]
@@ -268,6 +281,7 @@ def handle : Handler := fun fn args =>
       let a ← argAt args 0
       let params ← nstateOfJson (← field a "params")
       let step0 ← asNat (← field a "step")
+      let w ← widthOf a
       let fields ← fieldsOfJson (← field a "fields")
       let initTbl ← initTableOfJson nstateOfJson optStateOfJson (← field a "init_table")
       let tbl ← tableOfJson nstateOfJson optStateOfJson (← field a "table")
@@ -278,7 +292,7 @@ def handle : Handler := fun fn args =>
         | [] => Json.mkObj [("step", Json.num (JsonNumber.fromNat s.step)), ("params", nstateToJson s.params),
                             ("opt_state", optStateToJson s.optState), ("fields", fieldsToJson s.fields)]
         | (g, kw) :: rest =>
-          match s.applyGradients tx applyUpdatesN g kw with
+          match s.applyGradients w tx applyUpdatesN g kw with
           | .error e => Json.mkObj [("raise", .str (errName e)), ("at", Json.num (JsonNumber.fromNat i)),
                                     ("step", Json.num (JsonNumber.fromNat s.step)), ("params", nstateToJson s.params),
                                     ("opt_state", optStateToJson s.optState), ("fields", fieldsToJson s.fields)]
@@ -288,16 +302,19 @@ def handle : Handler := fun fn args =>
       let a ← argAt args 0
       let model ← modelOfJson (← field a "model")
       let wrt ← nfOfJson (← field a "wrt")
+      let w ← widthOf a
+      let st0 ← step0Of a
       let initTbl ← initTableOfJson nstateOfJson optStateOfJson (← field a "init_table")
       let tbl ← tableOfJson nstateOfJson optStateOfJson (← field a "table")
       let tx : NTx Arr := tableTx [.arr [(-1 : Rat)]] initTbl tbl
       let grads ← asList nstateOfJson (← field a "grads")
       let sel := fun p i => denote wrt p i
-      let o0 := Optimizer.create tx sel model
+      let o00 := Optimizer.create tx sel model
+      let o0 := match st0 with | some n => { o00 with step := n } | none => o00  -- `opt.step.value = …` by the caller
       let rec goO (o : Optimizer Arr) (i : Nat) : List (NState Arr) → Optimizer Arr × Json
         | [] => (o, Json.null)
         | g :: rest =>
-          match o.update tx sel g with
+          match o.update w tx sel g with
           | (o', some e) => (o', Json.mkObj [("raise", .str (errName e)), ("at", Json.num (JsonNumber.fromNat i))])
           | (o', none) => goO o' (i + 1) rest
       let (o, err) := goO o0 0 grads
